@@ -44,25 +44,38 @@ type obsSpec struct {
 
 type opSpec struct {
 	Dt    uint64     `json:"dt_ns"` // clock advance before the op
-	Kind  string     `json:"kind"`  // default | take | ctake | get | set | reset
+	Kind  string     `json:"kind"`  // default | take | ctake | get | set | reset | exceeded | resetlimits
 	Name  int        `json:"name,omitempty"`
 	Key   *keySpec   `json:"key,omitempty"`
 	Keys  []keySpec  `json:"keys,omitempty"`
 	N     int64      `json:"n,omitempty"`
 	G     int        `json:"goroutines,omitempty"`
 	State *stateSpec `json:"state,omitempty"`
+	Req   *reqSpec   `json:"request,omitempty"` // exceeded | resetlimits (through the limiter)
 	Obs   *obsSpec   `json:"observed,omitempty"`
 }
 
 type scenario struct {
-	Note string    `json:"note,omitempty"`
-	Ops  []*opSpec `json:"ops"`
+	Note   string      `json:"note,omitempty"`
+	Limits []limitSpec `json:"limits,omitempty"` // non-empty: an application with these limits is deployed
+	Ops    []*opSpec   `json:"ops"`
 }
 
 func qname(id int) appdef.QName { return appdef.NewQName("c19", fmt.Sprintf("limit%d", id)) }
 
 func (k keySpec) bucketKey() irates.BucketKey {
 	bk := irates.BucketKey{RateLimitName: qname(k.Name)}
+	if k.Rest >= 1000000 { // keys as the limiter builds them: workspace, address, resource (0 = not set)
+		x := k.Rest - 1000000
+		if ws := x / 10000; ws != 0 {
+			bk.Workspace = istructs.WSID(ws)
+		}
+		bk.RemoteAddr = addrString(x / 100 % 100)
+		if res := x % 100; res != 0 {
+			bk.QName = resQName(res)
+		}
+		return bk
+	}
 	switch k.Rest {
 	case 1:
 		bk.Workspace = istructs.WSID(7)
@@ -117,22 +130,57 @@ func keysCoq(ks []keySpec) string {
 	return kit.List(items)
 }
 
-// run executes the scenario on a new IBuckets and returns the Coq trace and the tags
+// run executes the scenario on a new IBuckets (behind the limiter of a deployed application when
+// the scenario has limits) and returns the Coq trace and the tags
 func run(sc *scenario) (coq string, tags []string, err error) {
 	defer func() {
 		if p := recover(); p != nil {
-			err = fmt.Errorf("panic in iratesce: %v", p)
+			err = fmt.Errorf("panic in iratesce/limiter: %v", p)
 		}
 	}()
 	clock := kit.NewClock()
-	buckets := iratesce.Provide(clock)
-	ref := newXSys()
+	var buckets irates.IBuckets
+	var rig *limiterRig
+	ref, fixed := newXSys(false), newXSys(true)
+	if len(sc.Limits) > 0 {
+		if rig, err = deploy(sc.Limits, clock); err != nil {
+			return "", nil, err
+		}
+		defer rig.close()
+		buckets = rig.buckets
+		for _, l := range sc.Limits {
+			ref.setDefault(l.Name, l.defaultState())
+			fixed.setDefault(l.Name, l.defaultState())
+		}
+	} else {
+		buckets = iratesce.Provide(clock)
+	}
 	var off uint64
 	var evs []string
 	tagset := map[string]bool{}
 	xdiff := 0
 	emit := func(at *big.Int, body string) {
 		evs = append(evs, fmt.Sprintf("Ev %s (%s)", at.String(), body))
+	}
+	// the observed outcome of one TakeTokens, followed on the faithful and on the repaired reference
+	observeTake := func(o *opSpec, at *big.Int, keys []keySpec, n int64, ok bool, exc int) {
+		nref, explained, early, xok, xexc := ref.follow(at, keys, n, ok, exc)
+		if early {
+			tagset["bridge:request-1ns-short-admitted-by-rounding"] = true
+		}
+		if !explained {
+			xdiff++
+			o.Obs.ExactDiff = fmt.Sprintf("exact model: ok=%v exc=%d", xok, xexc)
+			tagset[diffTag(nref, keys)] = true
+		}
+		ref = nref
+		nfixed, fexplained, _, _, _ := fixed.follow(at, keys, n, ok, exc)
+		if !fexplained {
+			for t := range classTags(nfixed, keys) {
+				tagset[t] = true
+			}
+		}
+		fixed = nfixed
 	}
 	for _, o := range sc.Ops {
 		if off+o.Dt < off || off+o.Dt > maxOffset {
@@ -148,6 +196,7 @@ func run(sc *scenario) (coq string, tags []string, err error) {
 		case "default":
 			buckets.SetDefaultBucketState(qname(o.Name), o.State.irates())
 			ref.setDefault(o.Name, *o.State)
+			fixed.setDefault(o.Name, *o.State)
 			emit(at, fmt.Sprintf("OSetDefault %d %s", o.Name, o.State.coq()))
 		case "take":
 			bks := make([]irates.BucketKey, len(o.Keys))
@@ -157,16 +206,7 @@ func run(sc *scenario) (coq string, tags []string, err error) {
 			ok, exc := buckets.TakeTokens(bks, int(o.N))
 			e := nameID(exc)
 			o.Obs.OK, o.Obs.Exc = &ok, &e
-			nref, explained, early, xok, xexc := ref.follow(at, o.Keys, o.N, ok, e)
-			if early {
-				tagset["bridge:request-1ns-short-admitted-by-rounding"] = true
-			}
-			if !explained {
-				xdiff++
-				o.Obs.ExactDiff = fmt.Sprintf("exact model: ok=%v exc=%d", xok, xexc)
-				tagset[diffTag(nref, o.Keys)] = true
-			}
-			ref = nref
+			observeTake(o, at, o.Keys, o.N, ok, e)
 			emit(at, fmt.Sprintf("OTake %s %s %s %d", keysCoq(o.Keys), kit.Z(o.N), kit.Bool(ok), e))
 		case "ctake":
 			bks := make([]irates.BucketKey, len(o.Keys))
@@ -196,28 +236,63 @@ func run(sc *scenario) (coq string, tags []string, err error) {
 			for _, r := range results {
 				o.Obs.OKs = append(o.Obs.OKs, r.ok)
 				o.Obs.Excs = append(o.Obs.Excs, r.exc)
-				nref, explained, early, xok, xexc := ref.follow(at, o.Keys, o.N, r.ok, r.exc)
-				if early {
-					tagset["bridge:request-1ns-short-admitted-by-rounding"] = true
-				}
-				if !explained {
-					xdiff++
-					o.Obs.ExactDiff = fmt.Sprintf("exact model: ok=%v exc=%d", xok, xexc)
-					tagset[diffTag(nref, o.Keys)] = true
-				}
-				ref = nref
+				observeTake(o, at, o.Keys, o.N, r.ok, r.exc)
 				emit(at, fmt.Sprintf("OTake %s %s %s %d", keysCoq(o.Keys), kit.Z(o.N), kit.Bool(r.ok), r.exc))
 			}
+		case "exceeded":
+			if rig == nil {
+				return "", nil, fmt.Errorf("exceeded: the scenario has no limits")
+			}
+			q := *o.Req
+			exceeded, excName := rig.part.IsLimitExceeded(resQName(q.Res), appdef.OperationKind(q.Op), istructs.WSID(q.WS), addrString(q.Addr))
+			ok, e := !exceeded, nameID(excName)
+			o.Obs.OK, o.Obs.Exc = &ok, &e
+			keys, _ := reqKeys(sc.Limits, q)
+			if len(keys) == 0 {
+				if exceeded || e != 0 {
+					xdiff++ // never equal on the Coq side either: `lowered` fails
+					o.Obs.ExactDiff = "no limit applies to the request"
+				}
+			} else {
+				observeTake(o, at, keys, 1, ok, e)
+			}
+			emit(at, fmt.Sprintf("OExceeded %s %s %d", q.coq(), kit.Bool(exceeded), e))
+		case "resetlimits":
+			if rig == nil {
+				return "", nil, fmt.Errorf("resetlimits: the scenario has no limits")
+			}
+			q := *o.Req
+			rig.part.ResetRateLimit(resQName(q.Res), appdef.OperationKind(q.Op), istructs.WSID(q.WS), addrString(q.Addr))
+			_, applicable := reqKeys(sc.Limits, q)
+			for _, l := range applicable {
+				ref.set(at, l.keyOf(q), l.defaultState())
+				fixed.set(at, l.keyOf(q), l.defaultState())
+			}
+			emit(at, fmt.Sprintf("OResetLimits %s", q.coq()))
 		case "get":
 			st, gerr := buckets.GetBucketState(o.Key.bucketKey())
 			found := gerr == nil
 			s := fromIrates(st)
 			o.Obs.Found, o.Obs.State = &found, &s
-			xfound, xs := ref.get(at, *o.Key)
-			if xfound != found || xs.Period != s.Period || xs.Max != s.Max || absDiff(xs.Taken, s.Taken) > 1 {
+			differs := func(r *xsys, exactWhenClean bool) bool {
+				xfound, xs := r.get(at, *o.Key)
+				tol := uint32(1) // float truncation of burst - tokens
+				if b := r.buckets[*o.Key]; exactWhenClean && b != nil && b.lim.kind == xNorm {
+					if _, _, noisy := b.lim.avail(at); !noisy {
+						tol = 0 // whole tokens: the reported count is exact
+					}
+				}
+				return xfound != found || xs.Period != s.Period || xs.Max != s.Max || absDiff(xs.Taken, s.Taken) > tol
+			}
+			if differs(ref, false) {
 				xdiff++
-				o.Obs.ExactDiff = fmt.Sprintf("exact arithmetic: found=%v state=%+v", xfound, xs)
+				o.Obs.ExactDiff = "exact model: another state"
 				tagset[diffTag(ref, []keySpec{*o.Key})] = true
+			}
+			if differs(fixed, true) {
+				for t := range classTags(fixed, []keySpec{*o.Key}) {
+					tagset[t] = true
+				}
 			}
 			emit(at, fmt.Sprintf("OGet %s %s %s", o.Key.coq(), kit.Bool(found), s.coq()))
 		case "set":
@@ -228,10 +303,12 @@ func run(sc *scenario) (coq string, tags []string, err error) {
 				xdiff++
 				o.Obs.ExactDiff = "exact model: found differs"
 			}
+			fixed.set(at, *o.Key, *o.State)
 			emit(at, fmt.Sprintf("OSet %s %s %s", o.Key.coq(), o.State.coq(), kit.Bool(found)))
 		case "reset":
 			buckets.ResetRateBuckets(qname(o.Name), o.State.irates())
 			ref.reset(at, o.Name, *o.State)
+			fixed.reset(at, o.Name, *o.State)
 			emit(at, fmt.Sprintf("OReset %d %s", o.Name, o.State.coq()))
 		default:
 			return "", nil, fmt.Errorf("unknown op kind %q", o.Kind)
@@ -247,8 +324,29 @@ func run(sc *scenario) (coq string, tags []string, err error) {
 		tags = append(tags, t)
 	}
 	sort.Strings(tags)
-	coq = fmt.Sprintf("(mkTrace %d [%s])", xdiff, strings.Join(evs, ";\n "))
+	lims := make([]string, len(sc.Limits))
+	for i, l := range sc.Limits {
+		lims[i] = l.coq()
+	}
+	coq = fmt.Sprintf("(mkTrace %d %s [%s])", xdiff, kit.List(lims), strings.Join(evs, ";\n "))
 	return coq, tags, nil
+}
+
+// classTags: the observed behaviour deviates from the repaired reference on buckets of a class the
+// unrepaired code mis-handles - the signature of findings F23 / F24
+func classTags(r *xsys, keys []keySpec) map[string]bool {
+	t := map[string]bool{}
+	for _, k := range keys {
+		if b, ok := r.buckets[k]; ok {
+			if b.subns {
+				t["F23:sub-ns-interval-bucket-is-unlimited"] = true
+			}
+			if b.overtaken {
+				t["F24:taken-above-count-leaves-bucket-full"] = true
+			}
+		}
+	}
+	return t
 }
 
 // an observable that no behaviour of the exact model explains is attributed to the configuration
